@@ -28,26 +28,26 @@ type crashState struct {
 
 type CrashRun struct {
 	*SeqRun
-	models        []*Model // models[i] = model after i acknowledged ops (ops that failed do not change it)
-	walEnds       []int64  // wal end after op i (index i+1); walEnds[0] before the first op
-	states        []*crashState
-	curOp         int
-	maxSnap       int
-	fp            string
-	applied       []bool
-	grabbed       map[string]*grabbedDS
-	mem           *NSMem          // C13: every mapping handed out so far
-	memAfter      []*NSMem        // memAfter[i] = mem after i ops
-	written       map[string]bool // identifiers (as in the scenario) written so far
-	settings      map[string]dsSettings
-	backupDir     string
-	backupMgr     *server.BackupManager
-	atBackup      *Model // model when the last completed backup run started
-	locationForeign bool // the backup location has been taken over by another store
-	walEpochStart int    // WAL offsets are only comparable for ops after the last clean restart
-	deletedIDs    map[uint32]bool
-	seenDsIDs     map[uint32]string // internal dataset id -> "name#incarnation"
-	incarnation   map[string]int
+	models          []*Model // models[i] = model after i acknowledged ops (ops that failed do not change it)
+	walEnds         []int64  // wal end after op i (index i+1); walEnds[0] before the first op
+	states          []*crashState
+	curOp           int
+	maxSnap         int
+	fp              string
+	applied         []bool
+	grabbed         map[string]*grabbedDS
+	mem             *NSMem          // C13: every mapping handed out so far
+	memAfter        []*NSMem        // memAfter[i] = mem after i ops
+	written         map[string]bool // identifiers (as in the scenario) written so far
+	settings        map[string]dsSettings
+	backupDir       string
+	backupMgr       *server.BackupManager
+	atBackup        *Model // model when the last completed backup run started
+	locationForeign bool   // the backup location has been taken over by another store
+	walEpochStart   int    // WAL offsets are only comparable for ops after the last clean restart
+	deletedIDs      map[uint32]bool
+	seenDsIDs       map[uint32]string // internal dataset id -> "name#incarnation"
+	incarnation     map[string]int
 }
 
 // grabbedDS is a dataset handle a client obtained earlier and keeps using (as a running job's
